@@ -205,7 +205,12 @@ func judge(class string, key []byte, o *fw.Obs) {
 		defer cancel()
 		var nonce uint64
 		var err error
-		if !o.Try("Mine", func() { nonce, err = pow.New(workers).Mine(ctx, data, target) }) {
+		var sp fw.SpareSet
+		dataIn := sp.Of("data", data, 64) // a window into a larger buffer: a nonce appended to it would write into the caller's memory
+		if !o.Try("Mine", func() { nonce, err = pow.New(workers).Mine(ctx, dataIn, target) }) {
+			return
+		}
+		if !sp.Check(o) {
 			return
 		}
 		if err != nil {
